@@ -44,13 +44,19 @@ func (nullLedger) GetStorageItem(key *states.StorageKey) (*states.StorageItem, e
 }
 
 // recorder is a synchronous actor.Process: it stores what the server sends to validators / consensus.
-type recorder struct{ msgs []interface{} }
+type recorder struct {
+	msgs []interface{}
+	on   func(message interface{}) // optional hook (part (d): wakes the "consensus" thread)
+}
 
 func (p *recorder) SendUserMessage(pid *actor.PID, message interface{}) {
 	if env, ok := message.(*actor.MessageEnvelope); ok {
 		message = env.Message
 	}
 	p.msgs = append(p.msgs, message)
+	if p.on != nil {
+		p.on(message)
+	}
 }
 func (p *recorder) SendSystemMessage(pid *actor.PID, message interface{}) {}
 func (p *recorder) Stop(pid *actor.PID)                                   {}
